@@ -122,7 +122,12 @@ pub fn probe_source_checked(w: i32, h: i32, ctm: &Transform, src: &SrcSpec, alph
     }
     let mut dt = DrawTarget::new(w, h);
     dt.set_transform(ctm);
-    src.with(|s| dt.fill(&path, s, &opts(BlendMode::Src, alpha, true)));
+    // Through Src, or - every other case, by a hash of what is asked for - through SrcOver onto the transparent
+    // surface: with full coverage both store the shader's output unchanged (src + 0 * (1 - a)), but they take
+    // different span blitters.
+    let hsh = crate::prng::hash_u64s(&[w as u64, h as u64, alpha.to_bits() as u64, ctm.m11.to_bits() as u64, ctm.m12.to_bits() as u64, ctm.m31.to_bits() as u64, ctm.m32.to_bits() as u64]);
+    let mode = if hsh & 1 == 0 { BlendMode::Src } else { BlendMode::SrcOver };
+    src.with(|s| dt.fill(&path, s, &opts(mode, alpha, true)));
     Ok(dt.get_data().to_vec())
 }
 
